@@ -10,6 +10,7 @@ use std::panic::{self, AssertUnwindSafe};
 
 use serde_json::{Value, json};
 
+mod builder;
 mod circ;
 mod lang;
 mod util;
@@ -24,6 +25,8 @@ fn handle(case: &Value) -> Value {
         "ssa_validate_eval" => circ::ssa_validate_eval(case),
         "reg_validate_eval" => circ::reg_validate_eval(case),
         "compile" => lang::compile(case),
+        "builder_run" => builder::builder_run(case),
+        "compile_eval" => lang::compile_eval(case),
         _ => json!({"error": format!("unknown op {op}")}),
     }
 }
